@@ -191,7 +191,7 @@ var hostileComments = []string{"-- it's  a  comment", "-- select  from where", "
 var seps = []string{" ", " ", "  ", "   ", "\n", "\n    ", "\n\t", "\n \t", "\n\t ", " \n", "  \n", "\t\n", "\n\n", "\n\n\n", "\n \n\n\n", "\r\n", " \r\n", "\n        ", "\n\t\t"}
 
 func genHostile(rt *rapid.T) (string, []string) {
-	f := sqlgen.AllFeatures()
+	f := sqlgen.FullFeatures()
 	f.MaxDepth = 2
 	f.KeywordCase = true
 	nst := rapid.IntRange(1, 3).Draw(rt, "nstmts")
